@@ -87,6 +87,14 @@ class Scenario:
     def user_ready(self, env: "Env", action: UserAction) -> bool:
         return True
 
+    def deliverable(self, env: "Env", s: Stream, item: Any) -> bool:
+        """Network latency as a scenario parameter: may this item reach the client now?"""
+        return True
+
+    def instants(self, env: "Env") -> Iterable[float]:
+        """Extra instants at which `time` must stop (e.g. the end of a network hold)."""
+        return ()
+
     def allow_time_deviation(self, env: "Env") -> bool:
         return True
 
@@ -123,6 +131,7 @@ class Env:
         self.error: str | None = None
         self.end_reason = ''
         self.time_while_ready = 0       # number of `time` actions taken while handles were ready
+        self.time_while_pending = 0
         self._after_time = False
         self._extra: dict[str, Callable[[], None]] = {}
         self.memo: dict[str, Any] = {}   # free space for scenarios
@@ -169,7 +178,7 @@ class Env:
         deliverable = []
         for s in w.open_streams():
             nxt = w.stream_next(s)
-            if nxt is not None:
+            if nxt is not None and sc.deliverable(self, s, nxt):
                 order = (0, 0) if nxt is EOF or nxt['type'] in ('ERROR', 'BOOKMARK') else \
                     (1, int(nxt['object']['metadata']['resourceVersion']))
                 deliverable.append((order, s.sid, s))
@@ -212,6 +221,9 @@ class Env:
             cands.append(d)
         if self.user_idx < len(self.user) and self.user[self.user_idx].at > self.now:
             cands.append(self.user[self.user_idx].at)
+        for t in self.scenario.instants(self):
+            if t > self.now:
+                cands.append(t)
         g = self.scenario.grid
         if g:
             nxt = (int(self.now / g + 1e-9) + 1) * g
@@ -249,6 +261,8 @@ class Env:
                 raise HarnessError("time is not enabled")
             if self.loop.has_ready():
                 self.time_while_ready += 1
+            if self.world.pending:
+                self.time_while_pending += 1   # the clock moved while a request was in flight: API latency
             self.loop.jump_to(t)
             self._after_time = True
             return
